@@ -124,6 +124,14 @@ class SymContMixin:
             return self._thint(ex["hi"] - ex["lo"])
         if name == "dq_maxlen":
             return ex["maxlen"]
+        if name == "dq_lo":
+            return self._thint(ex["lo"])
+        if name == "dq_hi":
+            return self._thint(ex["hi"])
+        if name == "dq_at_pos":
+            return z3.Select(ex["a"], self._mathint(self.to_int(args[1])))
+        if name == "dq_pos_of":
+            return self._thint(z3.Select(ex["idx"], self.to_int(args[1])))
         if name == "dq_at":
             return z3.Select(ex["a"], ex["lo"] + self._mathint(self.to_int(args[1])))
         if name == "dq_idx":
